@@ -81,6 +81,9 @@ pub struct Inv {
     /// output file, 2 = sources and config from the future
     #[serde(default)]
     pub src_age: u8,
+    /// directories handed to the CLI, relative to the workspace (empty = the workspace itself)
+    #[serde(default)]
+    pub roots: Vec<String>,
 }
 
 impl Inv {
